@@ -26,14 +26,19 @@ Variable Q : list transition -> state -> Prop.
 Variable side : transition -> state -> bool.
 (* what is known of an offer in the state it was computed in *)
 Variable OK : state -> transition -> Prop.
+(* what holds between two batches (after a batch was applied completely; in the initial state) *)
+Variable EB : state -> Prop.
 
 Hypothesis J_apply : forall x tr R x', NO x -> J x -> Q (tr :: R) x -> is_transition_valid x tr = Ok true ->
   apply_transition sigma i x tr = Ok x' -> J x' /\ Q R x' /\ side tr x' = true.
 Hypothesis J_now : forall x t, J x -> (s_now x <= t)%Z -> J (set_now x t).
-Hypothesis Q_timed : forall x timed poss tele, NO x -> J x -> create_timed_transitions i x = Ok timed ->
+Hypothesis E_end : forall x, J x -> Q [] x -> EB x.
+Hypothesis E_now : forall x t, EB x -> EB (set_now x t).
+Hypothesis Q_timed : forall x timed poss tele, NO x -> J x -> EB x -> create_timed_transitions i x = Ok timed ->
   get_possible_transitions i x = Ok poss -> filter_teleport i x poss = Ok tele -> Q (timed ++ tele) x.
-Hypothesis Q_timed0 : forall x timed, NO x -> J x -> create_timed_transitions i x = Ok timed -> Q timed x.
-Hypothesis Q_offer : forall x o, J x -> OK x o -> Q [o] x.
+Hypothesis Q_timed0 : forall x timed, NO x -> J x -> EB x -> create_timed_transitions i x = Ok timed -> Q timed x.
+(* an offer is applied to a state in which the simulator found nothing to do by itself *)
+Hypothesis Q_offer : forall x o, J x -> EB x -> create_timed_transitions i x = Ok [] -> OK x o -> Q [o] x.
 Hypothesis offers_ok : forall x offers, get_possible_transitions i x = Ok offers -> Forall (OK x) offers.
 
 Definition sidesJ (lg : mlog) : Prop := forall tr y, In (tr, y) lg -> side tr y = true.
@@ -60,25 +65,26 @@ Qed.
 
 Lemma process_PQ : forall trs x n lg x' lg',
   NO x -> J x -> Q trs x -> all_J lg -> sidesJ lg -> process_transitions sigma i trs x n lg = Ok (x', 0, lg') ->
-  NO x' /\ J x' /\ all_J lg' /\ sidesJ lg' /\ s_now x' = s_now x.
+  NO x' /\ J x' /\ all_J lg' /\ sidesJ lg' /\ s_now x' = s_now x /\ Q [] x'.
 Proof.
   induction trs as [|tr r IH]; intros x n lg x' lg' N F HQ L S H; simpl in H.
-  - inversion H; subst; auto.
+  - inversion H; subst; auto 6.
   - destruct (is_transition_valid x tr) as [v|e] eqn:Ev; simpl in H; [|discriminate]. destruct v.
     + destruct (apply_transition sigma i x tr) as [x1|e] eqn:Ea; simpl in H; [|discriminate].
       pose proof (apply_preserves_NO sigma i Hnn _ _ _ N Ea) as N1.
       destruct (J_apply _ _ _ _ N F HQ Ev Ea) as [F1 [Q1 S1]].
-      destruct (IH _ _ _ _ _ N1 F1 Q1 (all_J_snoc _ _ _ L N1 F1) (sidesJ_snoc _ _ _ S S1) H) as [A [B [C [D E]]]].
-      split; auto. split; auto. split; auto. split; auto. rewrite E. eapply apply_now; eauto.
+      destruct (IH _ _ _ _ _ N1 F1 Q1 (all_J_snoc _ _ _ L N1 F1) (sidesJ_snoc _ _ _ S S1) H) as [A [B [C [D [E0 E1]]]]].
+      split; auto. split; auto. split; auto. split; auto. split; auto. rewrite E0. eapply apply_now; eauto.
     + apply process_nerr_ge in H. lia.
 Qed.
 
 Definition result_J (lg : mlog) (x' : state) (offers : list transition) : Prop :=
   all_J lg /\ sidesJ lg /\ Forall (OK x') offers
-  /\ exists xq, NO xq /\ J xq /\ (x' = xq \/ (offers = [] /\ exists z, x' = set_now xq z)).
+  /\ exists xq, NO xq /\ J xq /\ EB xq /\ create_timed_transitions i xq = Ok []
+                /\ (x' = xq \/ (offers = [] /\ exists z, x' = set_now xq z)).
 
 Lemma loop_exit_PQ x x' offers lg lg' :
-  NO x -> J x -> all_J lg -> sidesJ lg ->
+  NO x -> J x -> EB x -> create_timed_transitions i x = Ok [] -> all_J lg -> sidesJ lg ->
   (if all_in_output i x
    then match max_done_end x with
         | Ok (Some z) => SOk (set_now x z) [] lg
@@ -88,41 +94,47 @@ Lemma loop_exit_PQ x x' offers lg lg' :
         | Ok offers => SOk x offers lg
         | Err e => SRaise e end) = SOk x' offers lg' -> result_J lg' x' offers.
 Proof.
-  intros N F L S H. destruct (all_in_output i x).
+  intros N F He Hct L S H. destruct (all_in_output i x).
   - destruct (max_done_end x) as [[z|]|]; [| |discriminate]; injection H as E1 E2 E3; subst x' offers lg';
       (split; [exact L|]); (split; [exact S|]); (split; [constructor|]); exists x; (split; [exact N|]); (split; [exact F|]);
-      [right; eauto|left; reflexivity].
+      (split; [exact He|]); (split; [exact Hct|]); [right; eauto|left; reflexivity].
   - destruct (get_possible_transitions i x) as [offs|] eqn:Eo; [|discriminate]. injection H as E1 E2 E3. subst x' offers lg'.
     split; [exact L|]. split; [exact S|]. split; [eapply offers_ok; eauto|].
-    exists x. split; [exact N|]. split; [exact F|]. left; reflexivity.
+    exists x. split; [exact N|]. split; [exact F|]. split; [exact He|]. split; [exact Hct|]. left; reflexivity.
 Qed.
 
 Lemma nerr_zero n : Nat.ltb 0 n = false -> n = 0.
 Proof. intros H. apply Nat.ltb_ge in H. lia. Qed.
 
 Lemma timed_loop_PQ fuel : forall x0 x timed lg x' offers lg',
-  NO x -> J x -> Q timed x -> all_J lg -> sidesJ lg -> timed_loop sigma i fuel x0 x timed lg = SOk x' offers lg' ->
+  NO x -> J x -> EB x -> (exists t1 tele, create_timed_transitions i x = Ok t1 /\ timed = t1 ++ tele) ->
+  Q timed x -> all_J lg -> sidesJ lg -> timed_loop sigma i fuel x0 x timed lg = SOk x' offers lg' ->
   result_J lg' x' offers.
 Proof.
-  induction fuel as [|f IH]; intros x0 x timed lg x' offers lg' N F HQ L S H; simpl in H.
+  assert (Hnil : forall x timed, (exists t1 tele, create_timed_transitions i x = Ok t1 /\ timed = t1 ++ tele) -> timed = [] ->
+                   create_timed_transitions i x = Ok []).
+  { intros x timed [t1 [tele [A B]]] ->. symmetry in B. apply app_eq_nil in B. destruct B as [-> _]. exact A. }
+  induction fuel as [|f IH]; intros x0 x timed lg x' offers lg' N F He Hct HQ L S H; simpl in H.
   - destruct timed; [|discriminate]. eapply loop_exit_PQ; eauto.
   - destruct timed as [|t ts]; [eapply loop_exit_PQ; eauto|].
     destruct (process_transitions sigma i (t :: ts) x 0 lg) as [[[x1 nerr] lg1]|e] eqn:Ep; [|discriminate].
     destruct (Nat.ltb 0 nerr) eqn:En; [discriminate|]. apply nerr_zero in En. subst nerr.
     destruct (jump_to_event i x1) as [tt|e] eqn:Ej; [|discriminate].
     destruct (create_timed_transitions i (set_now x1 tt)) as [timed'|e] eqn:Ec; [|discriminate].
-    destruct (process_PQ _ _ _ _ _ _ N F HQ L S Ep) as [N1 [F1 [L1 [S1 _]]]].
+    destruct (process_PQ _ _ _ _ _ _ N F HQ L S Ep) as [N1 [F1 [L1 [S1 [_ Q1]]]]].
     destruct (jump_to_event_ok i _ _ N1 Ej) as [Hle N2].
     assert (F2 : J (set_now x1 tt)) by (apply J_now; auto).
-    eapply IH; [exact N2|exact F2| |exact L1|exact S1|exact H].
-    eapply Q_timed0; eauto.
+    assert (E2 : EB (set_now x1 tt)) by (apply E_now; apply E_end; auto).
+    eapply IH; [exact N2|exact F2|exact E2| | |exact L1|exact S1|exact H].
+    + exists timed', []. rewrite app_nil_r. auto.
+    + eapply Q_timed0; eauto.
 Qed.
 
 Theorem step_PQ fuel x0 trs tm x' offers lg :
-  tm <> TMJumpByOne -> NO x0 -> J x0 -> (trs <> [] -> Q (sorted_by_transport trs) x0) ->
+  tm <> TMJumpByOne -> NO x0 -> J x0 -> EB x0 -> (trs <> [] -> Q (sorted_by_transport trs) x0) ->
   step sigma i fuel x0 trs tm = SOk x' offers lg -> result_J lg x' offers.
 Proof.
-  intros Htm N F HQ H. unfold step in H.
+  intros Htm N F He HQ H. unfold step in H.
   destruct (match trs with [] => Ok (x0, 0, []) | _ :: _ => process_transitions sigma i (sorted_by_transport trs) x0 0 [] end)
     as [[[x1 nerr] lg1]|e] eqn:Ep; [|discriminate].
   destruct (Nat.ltb 0 nerr) eqn:En; [discriminate|]. apply nerr_zero in En. subst nerr.
@@ -130,27 +142,30 @@ Proof.
   destruct (create_timed_transitions i (set_now x1 t)) as [timed|e] eqn:Ec; [|discriminate].
   destruct (get_possible_transitions i (set_now x1 t)) as [poss|e] eqn:Eg; [|discriminate].
   destruct (filter_teleport i (set_now x1 t) poss) as [tele|e] eqn:Ef; [|discriminate].
-  assert (H1 : NO x1 /\ J x1 /\ all_J lg1 /\ sidesJ lg1).
+  assert (H1 : NO x1 /\ J x1 /\ all_J lg1 /\ sidesJ lg1 /\ EB x1).
   { destruct trs as [|o os].
-    - inversion Ep; subst. split; [exact N|]. split; [exact F|]. split; intros tr y [].
+    - inversion Ep; subst. split; [exact N|]. split; [exact F|]. split; [intros tr y []|]. split; [intros tr y []|exact He].
     - destruct (process_PQ _ _ _ _ _ _ N F (HQ ltac:(discriminate))
                   (fun tr y (Hin : In (tr, y) []) => match Hin with end)
-                  (fun tr y (Hin : In (tr, y) []) => match Hin with end) Ep) as [A [B [C [D _]]]]. auto. }
-  destruct H1 as [N1 [F1 [L1 S1]]].
+                  (fun tr y (Hin : In (tr, y) []) => match Hin with end) Ep) as [A [B [C [D [_ Q1]]]]]. auto 6. }
+  destruct H1 as [N1 [F1 [L1 [S1 E1]]]].
   destruct (run_tm_ok i tm _ _ Htm N1 Et) as [Hle N2].
   assert (F2 : J (set_now x1 t)) by (apply J_now; auto).
-  eapply timed_loop_PQ; [exact N2|exact F2| |exact L1|exact S1|exact H].
-  eapply Q_timed; eauto.
+  assert (E2 : EB (set_now x1 t)) by (apply E_now; auto).
+  eapply timed_loop_PQ; [exact N2|exact F2|exact E2| | |exact L1|exact S1|exact H].
+  - exists timed, tele. auto.
+  - eapply Q_timed; eauto.
 Qed.
 
 Lemma sorted_single o : sorted_by_transport [o] = [o].
 Proof. unfold sorted_by_transport. simpl. destruct (is_transport_new o); reflexivity. Qed.
 
 Theorem mw_step_PQ fuel r m a r' m' lg :
-  NO (r_x r) -> J (r_x r) -> Forall (OK (r_x r)) (r_offers r) -> mw_step sigma i fuel r m a = MOk r' m' lg ->
+  NO (r_x r) -> J (r_x r) -> EB (r_x r) -> create_timed_transitions i (r_x r) = Ok [] ->
+  Forall (OK (r_x r)) (r_offers r) -> mw_step sigma i fuel r m a = MOk r' m' lg ->
   result_J lg (r_x r') (r_offers r').
 Proof.
-  intros N F HO H. unfold mw_step in H.
+  intros N F He Hct HO H. unfold mw_step in H.
   destruct (r_offers r) as [|o1 rest] eqn:Eo; [discriminate|].
   destruct (negb ((a =? 0)%Z || (a =? 1)%Z)); [discriminate|].
   destruct (a =? 0)%Z.
@@ -161,39 +176,93 @@ Proof.
       * destruct (all_in_output i x'); [|discriminate]. inversion H; subst. exact R.
       * inversion H; subst. exact R.
     + inversion H; subst; simpl. split; [intros tr y []|]. split; [intros tr y []|].
-      split; [inversion HO; auto|]. exists (r_x r). split; [exact N|]. split; [exact F|]. left; reflexivity.
+      split; [inversion HO; auto|]. exists (r_x r). split; [exact N|]. split; [exact F|]. split; [exact He|]. split; [exact Hct|]. left; reflexivity.
   - destruct (step sigma i fuel (r_x r) [o1] TMJumpToEvent) as [x' offers lg'| | |] eqn:Es; try discriminate.
     inversion H; subst. eapply step_PQ; eauto; [discriminate|].
     intros _. rewrite sorted_single. apply Q_offer; auto. inversion HO; auto.
 Qed.
 
 (* every run of the middleware satisfies the side condition on all its micro-logs *)
-Theorem reach_reachG fuel x0 joker0 ta r m :
-  NO x0 -> J x0 -> reach sigma i fuel x0 joker0 ta r m ->
+Theorem reach_reachG_E fuel x0 joker0 ta r m :
+  NO x0 -> J x0 -> EB x0 -> reach sigma i fuel x0 joker0 ta r m ->
   reachG sigma i side fuel x0 joker0 ta r m /\ Forall (OK (r_x r)) (r_offers r)
-  /\ exists xq, NO xq /\ J xq /\ (r_x r = xq \/ (r_offers r = [] /\ exists z, r_x r = set_now xq z)).
+  /\ exists xq, NO xq /\ J xq /\ EB xq /\ create_timed_transitions i xq = Ok []
+                /\ (r_x r = xq \/ (r_offers r = [] /\ exists z, r_x r = set_now xq z)).
 Proof.
-  intros N F H. induction H as [r m lg H|r m a r' m' lg H IH Hm].
+  intros N F He H. induction H as [r m lg H|r m a r' m' lg H IH Hm].
   - pose proof H as H0. unfold mw_reset in H.
     destruct (step sigma i fuel x0 [] TMJumpToEvent) as [x' offers lg'| | |] eqn:Es; try discriminate.
     inversion H; subst. simpl.
-    destruct (step_PQ fuel x0 [] TMJumpToEvent _ _ _ ltac:(discriminate) N F ltac:(intros C; congruence) Es) as [A [B [C D]]].
+    destruct (step_PQ fuel x0 [] TMJumpToEvent _ _ _ ltac:(discriminate) N F He ltac:(intros C; congruence) Es) as [A [B [C D]]].
     split; [eapply rg_reset; eauto|]. split; auto.
-  - destruct IH as [RG [HO [xq [Nq [Fq [E|[E _]]]]]]].
-    + subst xq. destruct (mw_step_PQ _ _ _ _ _ _ _ Nq Fq HO Hm) as [A [B [C D]]].
+  - destruct IH as [RG [HO [xq [Nq [Fq [Eq [Hct [E0|[E0 _]]]]]]]]].
+    + subst xq. destruct (mw_step_PQ _ _ _ _ _ _ _ Nq Fq Eq Hct HO Hm) as [A [B [C D]]].
       split; [eapply rg_step; eauto|]. split; auto.
-    + unfold mw_step in Hm. rewrite E in Hm. discriminate.
+    + unfold mw_step in Hm. rewrite E0 in Hm. discriminate.
+Qed.
+
+Theorem reach_reachG fuel x0 joker0 ta r m :
+  NO x0 -> J x0 -> EB x0 -> reach sigma i fuel x0 joker0 ta r m ->
+  reachG sigma i side fuel x0 joker0 ta r m /\ Forall (OK (r_x r)) (r_offers r)
+  /\ exists xq, NO xq /\ J xq /\ (r_x r = xq \/ (r_offers r = [] /\ exists z, r_x r = set_now xq z)).
+Proof.
+  intros N F He H. destruct (reach_reachG_E _ _ _ _ _ _ N F He H) as [A [B [xq [Nq [Fq [_ [_ D]]]]]]].
+  split; auto. split; auto. exists xq. auto.
 Qed.
 
 (* ... and J holds in every micro-state *)
 Theorem reach_micro_J fuel x0 joker0 ta r m a r' m' lg :
-  NO x0 -> J x0 -> reach sigma i fuel x0 joker0 ta r m -> mw_step sigma i fuel r m a = MOk r' m' lg ->
+  NO x0 -> J x0 -> EB x0 -> reach sigma i fuel x0 joker0 ta r m -> mw_step sigma i fuel r m a = MOk r' m' lg ->
   forall tr y, In (tr, y) lg -> J y /\ side tr y = true.
 Proof.
-  intros N F H Hm tr y Hin.
-  destruct (reach_reachG _ _ _ _ _ _ N F H) as [_ [HO [xq [Nq [Fq [E|[E _]]]]]]].
-  - subst xq. destruct (mw_step_PQ _ _ _ _ _ _ _ Nq Fq HO Hm) as [A [B _]]. split; [apply (A _ _ Hin)|apply (B _ _ Hin)].
-  - unfold mw_step in Hm. rewrite E in Hm. discriminate.
+  intros N F He H Hm tr y Hin.
+  destruct (reach_reachG_E _ _ _ _ _ _ N F He H) as [_ [HO [xq [Nq [Fq [Eq [Hct [E0|[E0 _]]]]]]]]].
+  - subst xq. destruct (mw_step_PQ _ _ _ _ _ _ _ Nq Fq Eq Hct HO Hm) as [A [B _]]. split; [apply (A _ _ Hin)|apply (B _ _ Hin)].
+  - unfold mw_step in Hm. rewrite E0 in Hm. discriminate.
 Qed.
 
 End S.
+
+(* the special case without a between-batches fact *)
+Section S0.
+Variable sigma : oracle.
+Variable i : inst.
+Hypothesis Hnn : inst_nonneg_b i = true.
+Variable J : state -> Prop.
+Variable Q : list transition -> state -> Prop.
+Variable side : transition -> state -> bool.
+Variable OK : state -> transition -> Prop.
+Hypothesis J_apply : forall x tr R x', NO x -> J x -> Q (tr :: R) x -> is_transition_valid x tr = Ok true ->
+  apply_transition sigma i x tr = Ok x' -> J x' /\ Q R x' /\ side tr x' = true.
+Hypothesis J_now : forall x t, J x -> (s_now x <= t)%Z -> J (set_now x t).
+Hypothesis Q_timed : forall x timed poss tele, NO x -> J x -> create_timed_transitions i x = Ok timed ->
+  get_possible_transitions i x = Ok poss -> filter_teleport i x poss = Ok tele -> Q (timed ++ tele) x.
+Hypothesis Q_timed0 : forall x timed, NO x -> J x -> create_timed_transitions i x = Ok timed -> Q timed x.
+Hypothesis Q_offer : forall x o, J x -> OK x o -> Q [o] x.
+Hypothesis offers_ok : forall x offers, get_possible_transitions i x = Ok offers -> Forall (OK x) offers.
+
+Let EB0 (x : state) : Prop := True.
+
+Theorem reach_reachG0 fuel x0 joker0 ta r m :
+  NO x0 -> J x0 -> reach sigma i fuel x0 joker0 ta r m ->
+  reachG sigma i side fuel x0 joker0 ta r m /\ Forall (OK (r_x r)) (r_offers r)
+  /\ exists xq, NO xq /\ J xq /\ (r_x r = xq \/ (r_offers r = [] /\ exists z, r_x r = set_now xq z)).
+Proof.
+  intros N F H.
+  apply (reach_reachG sigma i Hnn J Q side OK EB0 J_apply J_now (fun _ _ _ => I) (fun _ _ _ => I)
+           (fun x timed poss tele N0 F0 _ => Q_timed x timed poss tele N0 F0)
+           (fun x timed N0 F0 _ => Q_timed0 x timed N0 F0)
+           (fun x o F0 _ _ => Q_offer x o F0) offers_ok fuel x0 joker0 ta r m N F I H).
+Qed.
+
+Theorem reach_micro_J0 fuel x0 joker0 ta r m a r' m' lg :
+  NO x0 -> J x0 -> reach sigma i fuel x0 joker0 ta r m -> mw_step sigma i fuel r m a = MOk r' m' lg ->
+  forall tr y, In (tr, y) lg -> J y /\ side tr y = true.
+Proof.
+  intros N F H Hm.
+  apply (reach_micro_J sigma i Hnn J Q side OK EB0 J_apply J_now (fun _ _ _ => I) (fun _ _ _ => I)
+           (fun x timed poss tele N0 F0 _ => Q_timed x timed poss tele N0 F0)
+           (fun x timed N0 F0 _ => Q_timed0 x timed N0 F0)
+           (fun x o F0 _ _ => Q_offer x o F0) offers_ok fuel x0 joker0 ta r m a r' m' lg N F I H Hm).
+Qed.
+End S0.
